@@ -441,7 +441,10 @@ def rule_i9(F):
                     continue
                 a = t["args"][sp - 1]
                 srcs = {hir.last(mir.callee(b.blocks[x]["term"]) or "") for x in mir.back_calls(b, defs, a[1][0])}
-                own = bool(srcs & {"get_scope_of", "declare_runtime_module", "declare_module"})
+                # the deviation is descending with (a copy of) the very scope the pass was called with; a scope obtained from any
+                # lookup - directly or through a helper - is the child's
+                root, path = mir.origin(b, defs, a[1])
+                own = not (root == "arg%d" % sp and not mir.normalize_path(path))
                 r.inst("%s recursion" % hir.last(b.path), {"fn": b.path, "line": t.get("line"), "scope_from": sorted(srcs) or ["the incoming scope"]})
                 if not own:
                     r.bad(b.path, "module descent with the incoming scope", relfile(b.file), t.get("line"),
